@@ -105,7 +105,7 @@ class PropertiesData(Properties):
             isreftime = "since" in str(units)
 
         if isreftime:
-            units += " " + self.get_property("calendar", "")
+            units += " " + str(self.get_property("calendar", ""))
 
         return f"{self.identity('')}{dims} {units}"
 
